@@ -42,11 +42,11 @@ P.save()
 cases, meta, hist = [], [], {}
 
 
-def run(kind, modules, ksks, schema=None, nb=2, desc=None, strict=True, zs=None):
+def run(kind, modules, ksks, schema=None, nb=2, desc=None, strict=True, zs=None, via_xml=False):
     zsl = zs or [[Z[0]]] * nb
     rq = skrgen.honest_request(f"req-{R.randrange(10**6)}", NOW, len(zsl), zsl, ksrxml.default_zsk_policy(), sign=True)
     schema = schema or {i: {"publish": ["ksk_a"], "sign": ["ksk_a"], "revoke": []} for i in range(1, len(zsl) + 1)}
-    sc = {"modules": modules, "ksks": ksks, "schema": schema, "request": rq, "strict": strict}
+    sc = {"modules": modules, "ksks": ksks, "schema": schema, "request": rq, "strict": strict, "via_xml": via_xml}
     r = S.run_sign(sc)
     exp = S.expect(sc)
     impl = r["impl"]
@@ -88,6 +88,12 @@ for delta in [D(days=-1), D(seconds=-1), D(0), D(seconds=1), D(days=1)]:
         for tz in (TZS if delta in (D(seconds=-1), D(0), D(seconds=1)) and anchor_name != "inc2" else TZS[:1]):
             run("window-valid-until", BASE_MODS, {"ksk_a": ceremony.ksk_def(KA, valid_until=(anchor + delta).astimezone(tz))},
                 desc={"valid_until": f"{anchor_name}{delta.total_seconds():+.0f}s", "written_as": (anchor + delta).astimezone(tz).isoformat()})
+# the window is compared with the instants the KSR states (UTC), wherever the process runs and whether or not its timestamps carry an offset
+for tz, suffix in (("VRF+05", ""), ("VRF-09", ""), ("VRF+05", "+00:00"), (None, "")):
+    with ksrxml.process_zone(tz, suffix):
+        for delta in (D(seconds=-1), D(0), D(seconds=1)):
+            run("zone-valid-from", BASE_MODS, {"ksk_a": ceremony.ksk_def(KA, valid_from=inc1 + delta)}, desc={"TZ": tz or "(unset)", "timestamps": suffix or "no offset", "valid_from": f"inc1{delta.total_seconds():+.0f}s"}, via_xml=True)
+            run("zone-valid-until", BASE_MODS, {"ksk_a": ceremony.ksk_def(KA, valid_until=exp2 + delta)}, desc={"TZ": tz or "(unset)", "timestamps": suffix or "no offset", "valid_until": f"exp2{delta.total_seconds():+.0f}s"}, via_xml=True)
 run("window-no-valid-until", BASE_MODS, {"ksk_a": ceremony.ksk_def(KA)})
 # window applies to publish / revoke too, and per slot
 for role in ("publish", "revoke", "sign"):
